@@ -68,7 +68,7 @@ pub fn op_to_json(o: &Op) -> Value {
         m.insert("host".into(), json!(o.host));
     }
     if let Some(f) = &o.fault {
-        m.insert("fault".into(), json!({"kind": f.kind.name(), "at_permille": f.at_permille}));
+        m.insert("fault".into(), json!({"kind": f.kind.name(), "at_permille": f.at_permille, "persist": f.persist}));
     }
     if o.fail_at > 0 {
         m.insert("fail_at".into(), json!(o.fail_at));
@@ -97,7 +97,11 @@ pub fn op_from_json(v: &Value) -> Op {
     }
     if let Some(k) = v["fault"]["kind"].as_str().and_then(FaultKind::from_name) {
         o.fault =
-            Some(Fault { kind: k, at_permille: v["fault"]["at_permille"].as_u64().unwrap_or(0) as u32 });
+            Some(Fault {
+                kind: k,
+                at_permille: v["fault"]["at_permille"].as_u64().unwrap_or(0) as u32,
+                persist: v["fault"]["persist"].as_bool().unwrap_or(false),
+            });
     }
     o.fail_at = v["fail_at"].as_u64().unwrap_or(0) as u32;
     o
